@@ -4,7 +4,11 @@ import (
 	"bytes"
 	"errors"
 	"fmt"
+	"io"
+	"net"
+	"sort"
 	"testing"
+	"time"
 
 	"github.com/lightninglabs/lightning-node-connect/mailbox"
 	"pgregory.net/rapid"
@@ -405,6 +409,181 @@ func TestC16PartialRapid(t *testing.T) {
 		}
 		if v != "" {
 			rec.Pending(v, "partial", c)
+			rt.Fatalf("%s", v)
+		}
+	})
+	rec.Done()
+}
+
+// ---------- (d) NoiseConn.Write over a transport that times out ----------
+
+// cutConn is a net.Conn whose Write side is a partialWriter.
+type cutConn struct {
+	w *partialWriter
+}
+
+func (c *cutConn) Read([]byte) (int, error)         { return 0, io.EOF }
+func (c *cutConn) Write(p []byte) (int, error)      { return c.w.Write(p) }
+func (c *cutConn) Close() error                     { return nil }
+func (c *cutConn) LocalAddr() net.Addr              { return fakeAddr("cut") }
+func (c *cutConn) RemoteAddr() net.Addr             { return fakeAddr("peer-of-cut") }
+func (c *cutConn) SetDeadline(time.Time) error      { return nil }
+func (c *cutConn) SetReadDeadline(time.Time) error  { return nil }
+func (c *cutConn) SetWriteDeadline(time.Time) error { return nil }
+
+type connWriteCase struct {
+	Cfg    hsConfig `json:"cfg"`
+	Writes []int    `json:"writes"` // sizes of the application's Write calls (chunked above 65535)
+	Cuts   []int    `json:"cuts"`   // absolute wire offsets at which the transport times out
+}
+
+// runC16ConnWrite drives NoiseConn.Write the way its documentation asks a
+// caller to: after a timeout error, Flush until it succeeds, add every count
+// returned, then go on with the unreported remainder. Oracle: the peer decrypts
+// exactly the bytes the application wrote, once.
+func runC16ConnWrite(c *connWriteCase) string {
+	p, err := established(c.Cfg)
+	if err != nil {
+		return err.Error()
+	}
+	pw := &partialWriter{cuts: append([]int(nil), c.Cuts...)}
+	conn := mailbox.VerifNewNoiseConn(&cutConn{w: pw}, p.I.m)
+	var all []byte
+	for i, l := range c.Writes {
+		b := entropy(c.Cfg.Seed, fmt.Sprintf("connwrite/%d", i), l)
+		all = append(all, b...)
+		total := 0
+		for guard := 0; ; guard++ {
+			if guard > 10000 {
+				return "Write/Flush never finished"
+			}
+			n, err := conn.Write(b[total:])
+			if n < 0 || total+n > len(b) {
+				return fmt.Sprintf("Write #%d reported %d bytes with %d left to write", i, n, len(b)-total)
+			}
+			total += n
+			if err == nil {
+				break
+			}
+			var te interface{ Timeout() bool }
+			if !errors.As(err, &te) || !te.Timeout() {
+				return fmt.Sprintf("Write #%d failed with a non-timeout error on a transport that only times out: %v", i, err)
+			}
+			// complete the pending record
+			for {
+				m, ferr := conn.Flush()
+				total += m
+				if ferr == nil {
+					break
+				}
+				if guard++; guard > 10000 {
+					return "Flush never finished"
+				}
+			}
+			if total >= len(b) {
+				if total > len(b) {
+					return fmt.Sprintf("Write #%d: Write and Flush together reported %d bytes for a %d byte write", i, total, len(b))
+				}
+				break
+			}
+		}
+		if total != len(b) {
+			return fmt.Sprintf("Write #%d: %d bytes reported for a %d byte write", i, total, len(b))
+		}
+	}
+	// the peer reads the wire
+	rd := bytes.NewReader(pw.accepted)
+	var got []byte
+	for rd.Len() > 0 {
+		pt, err := safeRead(p.R.m, rd)
+		if err != nil {
+			return fmt.Sprintf("the peer failed to decrypt the stream after %d of %d bytes: %v", len(got), len(all), err)
+		}
+		got = append(got, pt...)
+	}
+	if !bytes.Equal(got, all) {
+		return fmt.Sprintf("the peer decrypted %d bytes, the application wrote %d (first difference at %d): resumed writes lost or repeated data", len(got), len(all), firstDiff(got, all))
+	}
+	return ""
+}
+
+func firstDiff(a, b []byte) int {
+	for i := 0; i < len(a) && i < len(b); i++ {
+		if a[i] != b[i] {
+			return i
+		}
+	}
+	if len(a) < len(b) {
+		return len(a)
+	}
+	return len(b)
+}
+
+func TestC16ConnWriteResume(t *testing.T) {
+	const unit = "TestC16ConnWriteResume"
+	rec := stats.New(t, "C16", unit)
+	var rc connWriteCase
+	if stats.ReplayCase(unit, &rc) {
+		if v := runC16ConnWrite(&rc); v != "" {
+			rec.Violation(v, "connwrite", rc)
+			t.Fatal(v)
+		}
+		return
+	}
+	if stats.ReplayMode() {
+		t.Skip()
+	}
+	rapid.Check(t, func(rt *rapid.T) {
+		c := &connWriteCase{Cfg: genCleanCfg(rt)}
+		c.Writes = rapid.SliceOfN(rapid.OneOf(
+			rapid.IntRange(0, 300),
+			rapid.SampledFrom([]int{65535, 65536, 65537, 131070, 131071, 140000}),
+			rapid.IntRange(65536, 200000),
+		), 1, 3).Draw(rt, "writes")
+		wire := 0
+		for _, l := range c.Writes {
+			for rest := l; ; rest -= 65535 {
+				if rest > 65535 {
+					wire += 18 + 65535 + 16
+					continue
+				}
+				wire += 18 + rest + 16
+				break
+			}
+		}
+		n := rapid.IntRange(0, 8).Draw(rt, "ncuts")
+		seen := map[int]bool{}
+		for i := 0; i < n; i++ {
+			// cut points anywhere, and near record boundaries (every
+			// 65535+34 bytes for chunked writes)
+			x := rapid.OneOf(rapid.IntRange(0, wire), rapid.IntRange(0, 60),
+				rapid.Custom(func(t *rapid.T) int {
+					return (65535+34)*rapid.IntRange(1, 3).Draw(t, "rec") + rapid.IntRange(-40, 420).Draw(t, "off")
+				})).Draw(rt, "cut")
+			if x >= 0 && x <= wire && !seen[x] {
+				seen[x] = true
+				c.Cuts = append(c.Cuts, x)
+			}
+		}
+		sort.Ints(c.Cuts)
+		rec.Current("connwrite", c)
+		v := runC16ConnWrite(c)
+		chunked := false
+		for _, l := range c.Writes {
+			if l > 65535 {
+				chunked = true
+			}
+		}
+		labels := []string{"conn_write"}
+		if chunked && len(c.Cuts) > 0 {
+			labels = append(labels, "conn_write_chunked_with_timeouts")
+		}
+		rec.Case(len(c.Cuts) > 0, fmt.Sprintf("%+v", *c), labels...)
+		if chunked && len(c.Cuts) > 0 && rec.WantSample() {
+			rec.Sample(c)
+		}
+		if v != "" {
+			rec.Pending(v, "connwrite", c)
 			rt.Fatalf("%s", v)
 		}
 	})
